@@ -54,6 +54,11 @@ func Parse(yangfiles, path []string) (map[string]*yang.Entry, []error) {
 
 	entries := make(map[string]*yang.Entry)
 	for _, m := range ms.Modules {
+		// When several revisions of a module are loaded, its name denotes
+		// the latest one.
+		if ms.Modules[m.Name] != m {
+			continue
+		}
 		e := yang.ToEntry(m)
 		entries[e.Name] = e
 	}
